@@ -157,6 +157,8 @@ def guard_form(code, start, end):
             break
         i -= 1
     head = code[i + 1:start].strip()
+    # attributes in front of the statement (`#[cfg(feature = "…")] for x in get_global!(…)…`) are not its head
+    head = re.sub(r"^(#\s*\[[^\]]*\]\s*)+", "", head)
     # what follows the call up to the end of the statement
     j, depth = end, 0
     while j < len(code):
